@@ -55,6 +55,8 @@ KINDS = {
     'K1': ('KEY(1)', 'KEY(1)', False),
     'K2': ('KEY(2)', 'KEY(2)', False),
     'K11': ('KEY(11)', 'KEY(11)', False),     # cursor-up key: handled before function keys
+    # a user-defined trap key that also produces a printable character (the space bar)
+    'K15': ('KEY(15)', 'KEY(15)', False, b'KEY 15,CHR$(0)+CHR$(57)'),
     'TM': ('TIMER(1)', 'TIMER', True),
     'PN': ('PEN', 'PEN', False),
     'ST': ('STRIG(0)', 'STRIG(0)', False),
@@ -64,6 +66,7 @@ FAMILIES = {
     'keys': ('K1', 'K2'),
     'timer-pen': ('TM', 'PN'),
     'strig-key': ('ST', 'K11'),
+    'userkey': ('K15', 'K1'),
 }
 
 MAIN_ALPHA = ('A:ON', 'A:OFF', 'A:STOP', 'B:ON', 'B:OFF', 'B:STOP', 'ERR', 'NOP')
@@ -91,6 +94,11 @@ def build_program(fam, main, body_a, body_b):
         text.append(b'%d %s' % (n, src))
         ops[n] = op
 
+    n = 5
+    for k in (a, b):
+        if len(KINDS[k]) > 3:
+            add(n, KINDS[k][3], ('nop',))
+            n += 1
     add(10, ('ON %s GOSUB 100' % KINDS[a][0]).encode(), ('def', 'A', 100))
     add(11, ('ON %s GOSUB 200' % KINDS[b][0]).encode(), ('def', 'B', 200))
     add(12, b'ON ERROR GOTO 300', ('onerror', 300))
@@ -170,6 +178,8 @@ class Runner(object):
             return signals.Event(signals.KEYB_DOWN, (u'\0\x3b', scancode.F1, []))
         if kind == 'K2':
             return signals.Event(signals.KEYB_DOWN, (u'\0\x3c', scancode.F2, []))
+        if kind == 'K15':
+            return signals.Event(signals.KEYB_DOWN, (u' ', scancode.SPACE, []))
         if kind == 'K11':
             return signals.Event(signals.KEYB_DOWN, (u'\0\x48', scancode.UP, []))
         if kind == 'PN':
@@ -359,8 +369,9 @@ def legs(ctx):
                        bound='family keys: main <= 3 x 2 bodies; all placements of <= 1 occurrence'))
         out.append(Leg('sched-others-main2-dev2',
                        _shards('timer-pen', 2, [nop], [nop], 2, 8)
-                       + _shards('strig-key', 2, [nop], [nop], 2, 8), work_sched, exhaustive=True,
-                       bound='families timer-pen, strig-key: main <= 2, plain handlers; <= 2 occurrences'))
+                       + _shards('strig-key', 2, [nop], [nop], 2, 8)
+                       + _shards('userkey', 2, [nop], [nop], 2, 8), work_sched, exhaustive=True,
+                       bound='families timer-pen, strig-key, userkey: main <= 2, plain handlers; <= 2 occurrences'))
     else:
         # (main <= 3 x 14 handler bodies x 3 occurrences would be ~70 CPU hours: split into two legs)
         out.append(Leg('sched-keys-main2-dev3',
@@ -375,8 +386,9 @@ def legs(ctx):
                        bound='family keys: main <= 4 x 4 bodies; all placements of <= 2 occurrences'))
         out.append(Leg('sched-others-main3-dev2',
                        _shards('timer-pen', 3, bodies1, [nop], 2, 16)
-                       + _shards('strig-key', 3, bodies1, [nop], 2, 16), work_sched, exhaustive=True,
-                       bound='families timer-pen, strig-key: main <= 3 x 7 bodies; <= 2 occurrences'))
+                       + _shards('strig-key', 3, bodies1, [nop], 2, 16)
+                       + _shards('userkey', 3, bodies1, [nop], 2, 16), work_sched, exhaustive=True,
+                       bound='families timer-pen, strig-key, userkey: main <= 3 x 7 bodies; <= 2 occurrences'))
     out.append(Leg('direct-mode', [0], work_direct, exhaustive=True,
                    bound='3 families x 4 ended programs x occurrences at each of 4 direct-mode polls'))
     return out
